@@ -108,8 +108,10 @@ pub fn relw<T: HS>(cfg: &Cfg, out: &mut Out<T>) {
         "zero" => {
             // real-svd tier (M = 1): w_z = 0 removes the influence of sample z
             let mut c2 = Cfg(cfg.0.clone());
-            c2.0.insert("real_svd".into(), "1".into());
-            c2.0.insert("m".into(), "1".into());
+            if cfg.usize("m", 1) == 1 {
+                c2.0.insert("real_svd".into(), "1".into());
+                c2.0.insert("m".into(), "1".into());
+            }
             let z = cfg.usize("zero_w", 1);
             c2.0.insert("zero_w".into(), z.to_string());
             let inp = make_inputs::<T>(&c2, out, 1);
